@@ -8,6 +8,7 @@ package serializer
 
 import (
 	"bytes"
+	"strings"
 	"encoding/json"
 	"fmt"
 	"os"
@@ -58,6 +59,9 @@ func TestVerifArchiveReplay(t *testing.T) {
 		}
 		licenseclassifier.ReadLicenseFile = func(name string) ([]byte, error) {
 			if k, ok := kind[name]; ok {
+				if k == "twin" { // Alpha's text, upper-cased and wrapped differently
+					return []byte(strings.Replace(strings.ToUpper(fmt.Sprintf(content["lic"], "Alpha.txt")), " ", "\n  ", 7)), nil
+				}
 				return []byte(fmt.Sprintf(content[k], name)), nil
 			}
 			return orig(name)
@@ -108,7 +112,7 @@ func TestVerifArchiveReplay(t *testing.T) {
 					if f[1] == "hdr" {
 						wantName = f[0][:len(f[0])-len(".header")]
 					}
-					if m == nil || m.Confidence != 1.0 || (m.Name != wantName && kindOfTwin(v.Files, wantName) == "") {
+					if m == nil || m.Confidence != 1.0 || (m.Name != wantName && kindOfTwin(v.Files, wantName) == "" && !(wantName == "Alpha" && m.Name == "Alpha-Twin")) {
 						why = fmt.Sprintf("NearestMatch of %s's own text: %+v", f[0], m)
 						return
 					}
